@@ -35,7 +35,7 @@ def stepX (fixA : Bool) (s : State) (a : Act) : State :=
   match a with
   | .drainA =>
     let (a, outs, _) := Node.step s.a (.drain [] [])
-    let a := if outs.any isSend then (Node.step a (.sending 1 (.sending 1))).1 else a
+    let a := if outs.any isSend then (Node.step a (.sending 1 1 (.sending 1))).1 else a
     absorbA { s with a := a } outs
   | a => step s a
 
